@@ -35,6 +35,9 @@ struct scen {
 
 #define CAP (LEN + 4)
 
+/* the decode obligations are C05's; for a large variable they are also the transport leg of C07 (READ text -> WRITE) */
+#define BCHK(c, msg) do { if (EN_C05 || EN_C07) CHECK((c), "C05/C07: " msg); } while (0)
+
 static struct {
         struct cat_object at;
         struct cat_descriptor desc;
@@ -137,37 +140,37 @@ static void scen_run(void)
 
         parse_write_args(&W.at);
 
-        CHK(C05, W.at.state == CAT_STATE_FLUSH_IO_WRITE_WAIT, "argument parsing ends in a result code");
+        BCHK(W.at.state == CAT_STATE_FLUSH_IO_WRITE_WAIT, "argument parsing ends in a result code");
         accepted = (G_buf[0] == 'O' && G_buf[1] == 'K' && G_buf[2] == 0);
-        CHK(C05, accepted || (G_buf[0] == 'E' && G_buf[1] == 'R' && G_buf[2] == 'R' && G_buf[3] == 'O' && G_buf[4] == 'R' && G_buf[5] == 0),
+        BCHK(accepted || (G_buf[0] == 'E' && G_buf[1] == 'R' && G_buf[2] == 'R' && G_buf[3] == 'O' && G_buf[4] == 'R' && G_buf[5] == 0),
             "answer is OK or ERROR");
 
-        CHK(C05, G_store[0] == S.fill && G_store[1] == S.fill, "bytes before the variable untouched");
+        BCHK(G_store[0] == S.fill && G_store[1] == S.fill, "bytes before the variable untouched");
         for (i = 0; i < DSB + 4; i++)
                 if (i >= ds)
-                        CHK(C05, G_store[2 + i] == S.fill, "no byte at or beyond data_size is modified");
+                        BCHK(G_store[2 + i] == S.fill, "no byte at or beyond data_size is modified");
 
         if (S.access == CAT_VAR_ACCESS_READ_ONLY) {
                 for (i = 0; i < DSB; i++)
                         CHK(C08, G_store[2 + i] == S.fill, "read-only variable keeps its value");
         } else {
-                CHK(C05, accepted == (int)fits, "accepted iff the decoded length fits the (large) variable");
+                BCHK(accepted == (int)fits, "accepted iff the decoded length fits the (large) variable");
                 if (fits) {
                         for (i = 0; i < DSB; i++)
                                 if (i < k) {
 #if VT == 3
-                                        CHK(C05, G_store[2 + i] == (unsigned char)((hexval(S.text[2 * i]) << 4) | hexval(S.text[2 * i + 1])),
+                                        BCHK(G_store[2 + i] == (unsigned char)((hexval(S.text[2 * i]) << 4) | hexval(S.text[2 * i + 1])),
                                             "variable holds the decoded bytes");
 #else
-                                        CHK(C05, G_store[2 + i] == S.text[i], "variable holds the decoded bytes");
+                                        BCHK(G_store[2 + i] == S.text[i], "variable holds the decoded bytes");
 #endif
                                 }
 #if VT == 4
-                        CHK(C05, G_store[2 + k] == 0, "string is NUL-terminated at the decoded length");
+                        BCHK(G_store[2 + k] == 0, "string is NUL-terminated at the decoded length");
 #endif
-                        CHK(C05, W.wcalls0 == 1 && W.wsize0 == k, "variable write callback told the decoded length");
+                        BCHK(W.wcalls0 == 1 && W.wsize0 == k, "variable write callback told the decoded length");
                 } else {
-                        CHK(C05, W.wcalls0 == 0, "no write callback for a rejected argument");
+                        BCHK(W.wcalls0 == 0, "no write callback for a rejected argument");
                 }
                 WITNESS(fits && k == ds - (VT == 4) && ds >= 256, "accepted-at-exact-capacity-above-255");
                 WITNESS(!fits && ds >= 256, "rejected-one-too-long");
